@@ -59,6 +59,14 @@ func (w *World) CheckAccess(focus waddrmgr.KeyScope, probes *ProbeCT, codes map[
 			fail("access:"+accessor+":state="+state, fmt.Sprintf("%s succeeded or returned material while the manager is %s (err=%v, material=%v)", accessor, state, err, material))
 		}
 	}
+	for _, h := range w.Held {
+		if pk, ok := h.MA.(waddrmgr.ManagedPubKeyAddress); ok {
+			k, err := pk.PrivKey()
+			deny("PrivKey(held:"+h.How+")", err, k != nil)
+			wif, err := pk.ExportPrivKey()
+			deny("ExportPrivKey(held:"+h.How+")", err, wif != nil)
+		}
+	}
 	w.View(func(ns walletdb.ReadBucket) error {
 		for _, is := range w.Issued {
 			sm, err := w.Scoped(is.Scope)
